@@ -79,6 +79,31 @@ pub fn sort_cases(n : usize, random : usize, seed : u64) -> Vec<Value>
             out.push(sort_record(format!("g{}.{}.{}", n, code, g), &rules, &goal, Some(perm)));
         }
     }
+    /* dense acyclic graphs on 5..7 rules whose names are in random order relative to the dependency order */
+    for r in 0..(random * 2)
+    {
+        let nr = 5 + rng.below(3);
+        let mut names : Vec<String> = ["a", "b", "c", "d", "e", "g", "w"].iter().take(nr).map(|s| s.to_string()).collect();
+        for k in (1..nr).rev() { let j = rng.below(k + 1); names.swap(k, j); }
+        let mut rules : Vec<(Vec<String>, Vec<String>)> = vec![];
+        for i in 0..nr
+        {
+            let mut src = vec![];
+            for j in (i + 1)..nr { if rng.chance(2, 5) { src.push(names[j].clone()); } }
+            if src.len() == 0 || rng.chance(1, 3) { src.push(format!("leaf{}", rng.below(2))); }
+            src.sort();
+            /* now and then a two-target rule whose parser (bundle) order is not the sorted order */
+            let tg = if rng.chance(1, 6) { vec![format!("{}/o", names[i]), format!("{}.s", names[i])] } else { vec![names[i].clone()] };
+            rules.push((tg, src));
+        }
+        /* dependents of a two-target rule refer to one of its real targets */
+        let multi : Vec<(String, Vec<String>)> = rules.iter().filter(|(t, _)| t.len() == 2).map(|(t, _)| (t[0][..t[0].len() - 2].to_string(), t.clone())).collect();
+        for (_, src) in rules.iter_mut() { for s in src.iter_mut() { for (base, t) in multi.iter() { if s == base { *s = t[rng.below(2)].clone(); } } } src.sort(); }
+        let goal = if rng.chance(1, 3) { "".to_string() } else { let t = &rules[rng.below(nr)].0; t[rng.below(t.len())].clone() };
+        let mut perm : Vec<usize> = (0..nr).collect();
+        for k in (1..nr).rev() { let j = rng.below(k + 1); perm.swap(k, j); }
+        out.push(sort_record(format!("d{}.{}", seed, r), &rules, &goal, Some(perm)));
+    }
     for r in 0..random
     {
         let nr = 2 + rng.below(if r % 4 == 0 { 38 } else { 8 });
@@ -386,8 +411,8 @@ pub fn persist_cases(n : usize, seed : u64) -> Vec<Value>
         let sys = VSystem::new("h", false);
         { let mut s2 = sys.clone(); s2.create_dir("h").unwrap(); }
         /* a rule history */
-        let entries = if case % 3 == 0 { rng.below(3) } else { rng.below(51) };
-        let nt = 1 + rng.below(8);
+        let entries = if case == 1 { 50 } else if case % 3 == 0 { rng.below(3) } else { rng.below(51) };
+        let nt = if case == 1 { 8 } else { 1 + rng.below(8) };
         let mut rh = RuleHistory::new();
         for e in 0..entries
         {
@@ -396,8 +421,13 @@ pub fn persist_cases(n : usize, seed : u64) -> Vec<Value>
         }
         let rt = tk(format!("rule{}", case));
         let mut hist = History::new(sys.clone(), "h");
-        hist.write_rule_history(rt.clone(), rh.clone()).unwrap();
+        let wrote = hist.write_rule_history(rt.clone(), rh.clone()).is_ok();
         let path = format!("h/{}", rt);
+        if !wrote || !sys.exists(&path)
+        {   /* what was recorded cannot be read back at all */
+            out.push(json!({"id" : format!("h{}.nofile", case), "file" : "history", "how" : "whole", "len" : 0, "outcome" : "error", "note" : "write_rule_history left no file"}));
+            continue;
+        }
         let good = read_bytes(&sys, &path);
         let mine = crate::project::decode_history(&good);
         if mine.map(|m| m.len()) != Some(entries) { out.push(json!({"id" : format!("h{}.decoder", case), "file" : "history", "how" : "whole", "outcome" : "error", "note" : "independent decoder disagrees"})); }
